@@ -55,12 +55,88 @@ func c14ParseGate(line string) (*c14GateScn, error) {
 	return &c14GateScn{required: f[2] == "1", login: f[3] == "L1", cmds: f[5:]}, nil
 }
 
-func c14GenGate(r *vh.Rng, required, login bool) *c14GateScn {
-	s := &c14GateScn{required: required, login: login}
-	n := 1 + r.Intn(12)
-	inTx := false
+func c14GenAuth(r *vh.Rng, goodPct int) string {
 	users := []string{c14User, c14User, "User@example.org", "other", ""}
 	pws := []string{c14Pass, c14Pass, "wrong", "", c14Pass + " "}
+	var u, p string
+	if r.Chance(goodPct) {
+		u, p = c14User, c14Pass
+	} else {
+		u, p = users[r.Intn(len(users))], pws[r.Intn(len(pws))]
+	}
+	if r.Chance(4) {
+		return "Ax"
+	}
+	if r.Bool() {
+		az := ""
+		switch y := r.Intn(10); {
+		case y < 2:
+			az = u
+		case y < 3:
+			az = "admin"
+		}
+		return "Ap:" + vh.HexRunes(az) + ":" + vh.HexRunes(u) + ":" + vh.HexBytes([]byte(p))
+	}
+	return "Al:" + vh.HexRunes(u) + ":" + vh.HexBytes([]byte(p))
+}
+
+// a second EHLO inside a transaction replaces the Session under go-smtp's feet while the Conn keeps its
+// transaction state (not C14's subject): the generators turn such an EHLO into RSET
+func c14NoEhloInTx(cmds []string) []string {
+	inTx := false
+	for i, c := range cmds {
+		switch c {
+		case "M":
+			inTx = true
+		case "S":
+			inTx = false
+		case "E":
+			if inTx {
+				cmds[i] = "S"
+				inTx = false
+			}
+		}
+	}
+	return cmds
+}
+
+func c14GenGate(r *vh.Rng, required, login bool) *c14GateScn {
+	s := &c14GateScn{required: required, login: login}
+	if r.Chance(60) {
+		// a plausible client session, then damaged: commands dropped, duplicated, moved
+		cmds := []string{"E"}
+		for i := r.Intn(3); i > 0; i-- {
+			cmds = append(cmds, c14GenAuth(r, 60))
+		}
+		for tx := 1 + r.Intn(2); tx > 0; tx-- {
+			cmds = append(cmds, "M")
+			for i := 1 + r.Intn(2); i > 0; i-- {
+				cmds = append(cmds, "R")
+			}
+			cmds = append(cmds, "D")
+			if r.Chance(20) {
+				cmds = append(cmds, "S")
+			}
+		}
+		for k := r.Intn(3); k > 0 && len(cmds) > 1; k-- {
+			i := r.Intn(len(cmds))
+			switch r.Intn(3) {
+			case 0:
+				cmds = append(cmds[:i], cmds[i+1:]...)
+			case 1:
+				j := r.Intn(len(cmds))
+				cmds[i], cmds[j] = cmds[j], cmds[i]
+			default:
+				cmds = append(cmds[:i+1], cmds[i:]...)
+			}
+		}
+		if len(cmds) > 14 {
+			cmds = cmds[:14]
+		}
+		s.cmds = c14NoEhloInTx(cmds)
+		return s
+	}
+	n := 1 + r.Intn(12)
 	for i := 0; i < n; i++ {
 		x := r.Intn(100)
 		if i == 0 && x >= 25 {
@@ -68,47 +144,22 @@ func c14GenGate(r *vh.Rng, required, login bool) *c14GateScn {
 		}
 		switch {
 		case x < 10:
-			if inTx { // a second EHLO inside a transaction replaces the Session under go-smtp's feet (not C14's subject)
-				s.cmds = append(s.cmds, "S")
-				inTx = false
-			} else {
-				s.cmds = append(s.cmds, "E")
-			}
+			s.cmds = append(s.cmds, "E")
 		case x < 34:
 			s.cmds = append(s.cmds, "M")
-			inTx = true
 		case x < 46:
 			s.cmds = append(s.cmds, "R")
 		case x < 54:
 			s.cmds = append(s.cmds, "D")
 		case x < 60:
 			s.cmds = append(s.cmds, "S")
-			inTx = false
 		case x < 64:
 			s.cmds = append(s.cmds, "N")
-		case x < 97:
-			var u, p string
-			if r.Chance(55) {
-				u, p = c14User, c14Pass
-			} else {
-				u, p = users[r.Intn(len(users))], pws[r.Intn(len(pws))]
-			}
-			if r.Bool() {
-				az := ""
-				switch y := r.Intn(10); {
-				case y < 2:
-					az = u
-				case y < 3:
-					az = "admin"
-				}
-				s.cmds = append(s.cmds, "Ap:"+vh.HexRunes(az)+":"+vh.HexRunes(u)+":"+vh.HexBytes([]byte(p)))
-			} else {
-				s.cmds = append(s.cmds, "Al:"+vh.HexRunes(u)+":"+vh.HexBytes([]byte(p)))
-			}
 		default:
-			s.cmds = append(s.cmds, "Ax")
+			s.cmds = append(s.cmds, c14GenAuth(r, 55))
 		}
 	}
+	s.cmds = c14NoEhloInTx(s.cmds)
 	return s
 }
 
@@ -247,7 +298,7 @@ func TestVerifC14Gate(t *testing.T) {
 			}
 		}
 	} else {
-		n := vh.N(300) / 2
+		n := vh.N(300)
 		rng := vh.NewRng(vh.Seed() + 1401)
 		for i := 0; i < n; i++ {
 			scns = append(scns, c14GenGate(rng.Fork(), rng.Chance(70), rng.Chance(70)))
